@@ -56,6 +56,9 @@ struct Case {
     /// source-rule names given to insert_logical / add_logical_justification: 0 = a different name
     /// per op, 1 = one name for all, 2 = two names alternating by op index
     rule_names: u8,
+    /// premises are handed over as text keys `Type.tag=<value>` and turned into handles by
+    /// `IncrementalEngine::resolve_premise_keys` (the path the backward-chaining inserter uses)
+    premises_by_key: bool,
 }
 
 fn rule_name(c: &Case, i: usize) -> String {
@@ -71,6 +74,7 @@ impl Case {
         json!({
             "watcher_rule": self.watcher_rule,
             "rule_names": self.rule_names,
+            "premises_by_key": self.premises_by_key,
             "ops": self.ops.iter().map(|o| match o {
                 Op::Explicit { f, plain } => json!({"op": if *plain { "insert" } else { "insert_explicit" }, "fact": f}),
                 Op::Logical { f, premises } => json!({"op": "insert_logical", "fact": f, "premises": premises}),
@@ -105,7 +109,7 @@ impl Case {
                 _ => return None,
             });
         }
-        Some(Case { ops, watcher_rule: j["watcher_rule"].as_bool().unwrap_or(false), rule_names: j["rule_names"].as_u64().unwrap_or(0).min(2) as u8 })
+        Some(Case { ops, watcher_rule: j["watcher_rule"].as_bool().unwrap_or(false), rule_names: j["rule_names"].as_u64().unwrap_or(0).min(2) as u8, premises_by_key: j["premises_by_key"].as_bool().unwrap_or(false) })
     }
 }
 
@@ -357,9 +361,16 @@ fn fact_type(f: u8) -> String {
     format!("F{}", f % 2)
 }
 
+/// every fact carries a unique text `tag`; some of the texts contain `=` and other key syntax
+fn fact_tag(f: u8) -> String {
+    const TAGS: [&str; 8] = ["plain", "k=v", "https://x.org/cb?state=4&y=2", "a==b", "=lead", "trail=", "dotted.name=1", "sp ace"];
+    format!("{}#{}", TAGS[f as usize % TAGS.len()], f)
+}
+
 fn fact_data(f: u8) -> TypedFacts {
     let mut d = TypedFacts::new();
     d.set("id", FactValue::Integer(f as i64));
+    d.set("tag", FactValue::String(fact_tag(f)));
     d
 }
 
@@ -385,7 +396,22 @@ fn run_case(c: &Case, mut trace: Option<&mut Vec<String>>) -> (Outcome, Obs) {
             Err(e) => return (Outcome::IllFormed(format!("op #{}: {}", i, e)), obs),
         };
         obs.ops += 1;
-        let prem = |ps: &Vec<u8>| -> Vec<FactHandle> { ps.iter().map(|p| handles[*p as usize].unwrap()).collect() };
+        let direct = |ps: &Vec<u8>| -> Vec<FactHandle> { ps.iter().map(|p| handles[*p as usize].unwrap()).collect() };
+        // with `premises_by_key` the handles come from the engine's own key resolution; they must be
+        // the handles of the facts that carry those values (every premise is live, every tag unique)
+        let mut key_mismatch: Option<String> = None;
+        let mut prem = |ps: &Vec<u8>, eng: &IncrementalEngine| -> Vec<FactHandle> {
+            let want = direct(ps);
+            if !c.premises_by_key {
+                return want;
+            }
+            let keys: Vec<String> = ps.iter().map(|p| format!("{}.tag={}", fact_type(*p), fact_tag(*p))).collect();
+            let got = eng.resolve_premise_keys(keys.clone());
+            if got != want && key_mismatch.is_none() {
+                key_mismatch = Some(format!("resolve_premise_keys({:?}) = {:?}, the live facts carrying those values have handles {:?}", keys, got, want));
+            }
+            got
+        };
         let mut retract_result: Option<bool> = None;
         match op {
             Op::Explicit { f, plain } => {
@@ -405,7 +431,7 @@ fn run_case(c: &Case, mut trace: Option<&mut Vec<String>>) -> (Outcome, Obs) {
                 handles[*f as usize] = Some(h);
             }
             Op::Logical { f, premises } => {
-                let ps = prem(premises);
+                let ps = prem(premises, &eng);
                 let h = eng.insert_logical(fact_type(*f), fact_data(*f), rule_name(c, i), ps);
                 if handles.iter().flatten().any(|x| *x == h) {
                     return (Outcome::Violated(Fail {
@@ -418,7 +444,7 @@ fn run_case(c: &Case, mut trace: Option<&mut Vec<String>>) -> (Outcome, Obs) {
                 handles[*f as usize] = Some(h);
             }
             Op::Justify { f, premises } => {
-                let ps = prem(premises);
+                let ps = prem(premises, &eng);
                 eng.tms_mut().add_logical_justification(handles[*f as usize].unwrap(), rule_name(c, i), ps);
             }
             Op::RetractUnissued { ahead } => {
@@ -452,6 +478,9 @@ fn run_case(c: &Case, mut trace: Option<&mut Vec<String>>) -> (Outcome, Obs) {
                     }
                 }
             }
+        }
+        if let Some(d) = key_mismatch.take() {
+            return (Outcome::Violated(Fail { step: i, clause: "premise-keys".into(), cause: "key-does-not-resolve-to-the-fact-carrying-the-value".into(), detail: format!("op #{} {}: {}", i, op_text(op), d) }), obs);
         }
         obs.cascaded_facts += info.cascaded.len() as u64;
         obs.max_cascade = obs.max_cascade.max(info.cascaded.len() as u64);
@@ -900,9 +929,9 @@ fn dfs(prefix: &mut Vec<Op>, m: &Model, depth_left: usize, max_facts: usize, st:
     if depth_left == 0 || alpha.is_empty() {
         // maximal history: run it (every prefix is judged because the monitor compares after every op)
         // same history under per-op rule names and under one rule name for every justification
-        check_case(&Case { ops: prefix.clone(), watcher_rule: false, rule_names: 0 }, st);
+        check_case(&Case { ops: prefix.clone(), watcher_rule: false, rule_names: 0, premises_by_key: false }, st);
         if prefix.iter().any(|o| matches!(o, Op::Justify { .. })) {
-            check_case(&Case { ops: prefix.clone(), watcher_rule: false, rule_names: 1 }, st);
+            check_case(&Case { ops: prefix.clone(), watcher_rule: false, rule_names: 1, premises_by_key: false }, st);
         }
         st.add("exhaustive_maximal_histories", 1);
         return;
@@ -1019,7 +1048,96 @@ fn gen_random(rng: &mut Rng, max_ops: usize, max_facts: usize) -> Case {
             ops.push(op);
         }
     }
-    Case { ops, watcher_rule: rng.chance(1, 4), rule_names: rng.below(3) as u8 }
+    Case { ops, watcher_rule: rng.chance(1, 4), rule_names: rng.below(3) as u8, premises_by_key: rng.chance(1, 4) }
+}
+
+// ------------------------------------------------------------------------------------------
+// long structures (beyond the model's 64 names): chains and fans of derived facts
+// ------------------------------------------------------------------------------------------
+
+/// `chain`: f0 explicit, f(i+1) <- {f(i)}; `fan`: f0 explicit, every other fact <- {f0}. The fact
+/// with index `cut` is retracted; everything that (transitively) rests on it must be gone in the
+/// same call, everything else must still be there.
+fn run_long(shape: &str, n: usize, cut: usize) -> Option<(String, String)> {
+    let mut eng = IncrementalEngine::new();
+    let mut hs: Vec<FactHandle> = Vec::with_capacity(n);
+    let data = |i: usize| {
+        let mut d = TypedFacts::new();
+        d.set("id", FactValue::Integer(i as i64));
+        d
+    };
+    hs.push(eng.insert_explicit("L".to_string(), data(0)));
+    for i in 1..n {
+        let prem = if shape == "chain" { vec![hs[i - 1]] } else { vec![hs[0]] };
+        hs.push(eng.insert_logical("L".to_string(), data(i), format!("r{}", i), prem));
+    }
+    if eng.retract(hs[cut]).is_err() {
+        return Some(("retracted-fact-removed".into(), format!("retract of live fact #{} of a {} of {} returned Err", cut, shape, n)));
+    }
+    let gone = |i: usize| -> bool {
+        if shape == "chain" {
+            i >= cut
+        } else {
+            i == cut || cut == 0
+        }
+    };
+    let mut wrong_present: Vec<usize> = Vec::new();
+    let mut wrong_absent: Vec<usize> = Vec::new();
+    for i in 0..n {
+        let present = eng.working_memory().get(&hs[i]).is_some();
+        if present && gone(i) {
+            wrong_present.push(i);
+        }
+        if !present && !gone(i) {
+            wrong_absent.push(i);
+        }
+    }
+    if !wrong_present.is_empty() {
+        return Some((
+            "unsupported-fact-present".into(),
+            format!("{} of {} facts, #{} retracted: {} facts that rest on it are still present (first #{}, last #{}): the cascade stopped short", shape, n, cut, wrong_present.len(), wrong_present[0], wrong_present[wrong_present.len() - 1]),
+        ));
+    }
+    if !wrong_absent.is_empty() {
+        return Some(("supported-fact-removed".into(), format!("{} of {} facts, #{} retracted: {} facts that do not rest on it are gone (first #{})", shape, n, cut, wrong_absent.len(), wrong_absent[0])));
+    }
+    None
+}
+
+fn long_case_json(shape: &str, n: usize, cut: usize) -> Json {
+    json!({"kind": "long-structure", "shape": shape, "facts": n, "retract": cut})
+}
+
+fn explore_long(cli: &Cli, st: &mut Stats) {
+    let sizes: &[usize] = match cli.tier {
+        Tier::Quick => &[5, 70, 300, 1100, 2500],
+        Tier::Thorough => &[5, 70, 300, 1100, 2500, 10_000],
+    };
+    for shape in ["chain", "fan"] {
+        for &n in sizes {
+            for cut in [0, 1, n / 3, n - 2, n - 1] {
+                if cut >= n {
+                    continue;
+                }
+                st.eval();
+                st.count("long_structures_(chains_and_fans_of_derived_facts)");
+                st.max("max::facts_in_one_long_structure", n as u64);
+                // deep recursion in the library needs room: run on a thread with a large stack
+                let (sh, n2) = (shape.to_string(), n);
+                let r = std::thread::Builder::new().stack_size(256 << 20).spawn(move || pan::catch(|| run_long(&sh, n2, cut))).ok().and_then(|h| h.join().ok());
+                match r {
+                    Some(Ok(None)) => st.nontrivial(hash_of(&(shape, n, cut))),
+                    Some(Ok(Some((clause, detail)))) => st.violation(Violation { clause: clause.clone(), sig: mk_long_sig(&clause, shape), detail, case: long_case_json(shape, n, cut) }),
+                    Some(Err(p)) => st.violation(Violation { clause: "no-panic".into(), sig: format!("C08|no-panic|{}|{}", p.class(), p.frame), detail: format!("panic: {} at {}:{}", p.msg, p.file, p.line), case: long_case_json(shape, n, cut) }),
+                    None => st.inconclusive("a long-structure thread could not be run"),
+                }
+            }
+        }
+    }
+}
+
+fn mk_long_sig(clause: &str, shape: &str) -> String {
+    format!("C08|{}|long-{}", clause, shape)
 }
 
 struct C08;
@@ -1029,7 +1147,7 @@ impl Check for C08 {
         "C08"
     }
     fn rule(&self) -> String {
-        "exhaustive: every history of exactly N ops (shorter only when no op is possible) over at most F facts, for (N,F) = (7,4) and (6,7) quick / (7,7) and then (8,4) thorough, from the alphabet {insert_explicit(new); insert_logical(new, P); add_logical_justification(g, P) for every live logical g (P may contain g: support cycles); retract(h) for every live h; retract of the next not-yet-issued handle}; every maximal history with a justification is run twice, with a different source-rule name per op and with ONE rule name for all justifications, P ranging over every non-empty set of <= 3 live facts; the monitor compares after every op, so every shorter history is judged as a prefix. random: histories of 2..=10 ops over 2..=7 facts (thorough: every fourth one 2..=16 ops over up to 10 facts), 1-3 premises, chain-biased and uniform premise choice, 1/6 of them with hostile features (empty or duplicated premise lists, self-support, retract of an already absent fact), 1/4 with failing retract calls on handles that are issued only later, source-rule names per op / one for all / two alternating, 1/4 with a no-op rule registered per fact type so that the engine's re-propagation runs. A case is non-trivial when at least one retraction removed at least one other fact by cascade; distinct by op sequence.".into()
+        "exhaustive: every history of exactly N ops (shorter only when no op is possible) over at most F facts, for (N,F) = (7,4) and (6,7) quick / (7,7) and then (8,4) thorough, from the alphabet {insert_explicit(new); insert_logical(new, P); add_logical_justification(g, P) for every live logical g (P may contain g: support cycles); retract(h) for every live h; retract of the next not-yet-issued handle}; every maximal history with a justification is run twice, with a different source-rule name per op and with ONE rule name for all justifications, P ranging over every non-empty set of <= 3 live facts; the monitor compares after every op, so every shorter history is judged as a prefix. random: histories of 2..=10 ops over 2..=7 facts (thorough: every fourth one 2..=16 ops over up to 10 facts), 1-3 premises, chain-biased and uniform premise choice, 1/6 of them with hostile features (empty or duplicated premise lists, self-support, retract of an already absent fact), 1/4 with failing retract calls on handles that are issued only later, source-rule names per op / one for all / two alternating, 1/4 with a no-op rule registered per fact type so that the engine's re-propagation runs. 1/4 with the premises handed over as text keys `Type.tag=value` (values containing `=`, `?`, `.`, blanks) and resolved by IncrementalEngine::resolve_premise_keys. LONG structures (beyond the statement's 7 facts): chains f(i+1)<-{f(i)} and fans f(i)<-{f0} of 5..2500 (thorough 10000) facts, one fact retracted at the root, near it, a third of the way, near the end, at the end; everything resting on it must be gone in the same call and nothing else. A case is non-trivial when at least one retraction removed at least one other fact by cascade; distinct by op sequence.".into()
     }
     fn assumptions(&self) -> Vec<String> {
         vec![
@@ -1042,6 +1160,7 @@ impl Check for C08 {
     }
     fn explore(&self, cli: &Cli, st: &mut Stats) {
         let nthreads = cli.threads;
+        explore_long(cli, st);
         let mut sweeps: Vec<(usize, usize)> = match cli.tier {
             Tier::Quick => vec![(7, 4), (6, 7)],
             Tier::Thorough => vec![(7, 7), (8, 4)],
@@ -1114,6 +1233,16 @@ impl Check for C08 {
         }
     }
     fn replay(&self, cli: &Cli, case: &Json) -> Vec<Violation> {
+        if case["kind"].as_str() == Some("long-structure") {
+            let (shape, n, cut) = (case["shape"].as_str().unwrap_or("chain").to_string(), case["facts"].as_u64().unwrap_or(5) as usize, case["retract"].as_u64().unwrap_or(0) as usize);
+            let sh = shape.clone();
+            let r = std::thread::Builder::new().stack_size(256 << 20).spawn(move || pan::catch(|| run_long(&sh, n, cut))).ok().and_then(|h| h.join().ok());
+            return match r {
+                Some(Ok(Some((clause, detail)))) => vec![Violation { clause: clause.clone(), sig: mk_long_sig(&clause, &shape), detail, case: case.clone() }],
+                Some(Err(p)) => vec![Violation { clause: "no-panic".into(), sig: format!("C08|no-panic|{}|{}", p.class(), p.frame), detail: format!("panic: {} at {}:{}", p.msg, p.file, p.line), case: case.clone() }],
+                _ => vec![],
+            };
+        }
         let Some(c) = Case::from_json(case) else {
             return vec![Violation {
                 clause: "harness".into(),
